@@ -34,15 +34,16 @@ def to_events(trace, lvl):
     previous value of the word (the FIBER backend is sequentially consistent)."""
     w = "j%d" % lvl
     cur = "I"
-    evs, calls, drops = [], [], []
+    evs, calls, drops = EvList(), [], []
     insub = {}       # fiber -> dict(t, n, loaded, must)
     dropping = set() # fibers inside the drop loop of a Drop activation of this level
     maxt = -1
     suf = str(lvl)
-    for tok in trace.split(";"):
+    for ti, tok in enumerate(trace.split(";")):
         if not tok:
             continue
         who, _, rest = tok.partition(":")
+        evs.at = (ti, who)
         mine = None
         if rest.startswith("!"):
             head, _, arg = rest[1:].partition(" ")
@@ -145,8 +146,59 @@ def to_events(trace, lvl):
         else:
             raise ValueError("unexpected operation on the jobs word: " + tok)
     for who in sorted(dropping):
+        evs.at = (10 ** 9, who)
         evs.append("EDropDone")
     return evs, calls, drops, maxt + 1
+
+
+class EvList(list):
+    """list of event strings that remembers, for each, the trace token (index, fiber) it came from"""
+    def __init__(self):
+        super().__init__()
+        self.at = (0, "")
+        self.meta = []
+
+    def append(self, e):
+        super().append(e)
+        self.meta.append(self.at)
+
+
+def to_events2(trace):
+    """ss/ scenarios: the two observed strands as one run of StrandStack.v.  The outer strand's calls into its underlying
+    executor (markers xs1 / call1 / drop1) are fused with the inner strand's push / job begin / job drop of the proxy job
+    executed by the same fiber."""
+    e0, c0, d0, n0 = to_events(trace, 0)
+    e1, c1, d1, n1 = to_events(trace, 1)
+    items = sorted([(m[0], 0, m[1], e) for e, m in zip(e0, e0.meta)] + [(m[0], 1, m[1], e) for e, m in zip(e1, e1.meta)],
+                   key=lambda x: (x[0], x[1]))
+    out, pend, expect = [], {}, {}
+    for _, lvl, who, e in items:
+        if lvl == 1:
+            if e.startswith("ESubmit "):
+                pend[who] = "SubmitOuter %s" % e.split()[1]
+            elif e == "EResubmit":
+                pend[who] = "ResubmitOuter"
+            elif e in ("EStartCall", "EStartDrop"):
+                if expect.pop(who, None) != e:
+                    raise ValueError("outer %s by %s without the inner job event" % (e, who))
+            else:
+                out.append("Outer (%s)" % e)
+        else:
+            if e.startswith("EPush "):
+                if who not in pend:
+                    raise ValueError("inner push by %s that is not a submission of the outer strand" % who)
+                out.append("%s %s" % (pend.pop(who), e[len("EPush "):]))
+            elif e.startswith("ERunBegin "):
+                out.append("CallOuter %s" % e[len("ERunBegin "):])
+                expect[who] = "EStartCall"
+            elif e.startswith("EDropJob "):
+                out.append("DropOuter %s" % e[len("EDropJob "):])
+                expect[who] = "EStartDrop"
+            else:
+                out.append("Inner (%s)" % e)
+    if pend or expect:
+        raise ValueError("unmatched outer executor call")
+    return out, n0, n1, len(c1), len(d1), len(c0) + len(d0)
 
 
 def levels_of(scenario):
@@ -189,31 +241,31 @@ def plan(ck):
     seed = str(ck.seed)
     P = []
     named = ["--param", "yields=named"]
-    # exhaustive DFS, manual executor
-    dfs_small = ["man/S1J1W1", "man/S1J2W1", "man/S1J1W2", "man/S2J1W1"]
-    for base in dfs_small:
+    full = ["--mode", "dfs", "--max", "100000000"]
+    # exhaustive DFS over every scheduling decision, manual executor with worker fibers
+    for base in ("man/S1J1W1", "man/S1J2W1", "man/S1J1W2", "man/S2J1W1"):
         for r in ("ok", "ref", "inl"):
-            P.append((base + "/" + r, ["--mode", "dfs", "--max", "100000000"], True))
-    for r in ("ok", "ref"):
-        P.append(("re/S1J1W1/" + r, ["--mode", "dfs", "--max", "100000000"], True))
-    P.append(("ss/S1J1W1/ok", ["--mode", "dfs", "--max", "100000000"], True))
-    P.append(("ss/S1J1W1/ref", ["--mode", "dfs", "--max", "100000000"], True))
-    # spurious weak-CAS failure explored exhaustively on the smallest contended configuration
-    P.append(("man/S2J1W1/ok", ["--mode", "dfs", "--max", "100000000", "--weak", "1"] + named, True))
-    big = ["man/S2J1W2", "man/S2J2W1", "man/S2J2W2"]
+            P.append((base + "/" + r, full, True))
+    for sc in ("re/S1J1W1/ok", "re/S1J1W1/ref", "ss/S1J1W1/ok", "ss/S1J1W1/ref"):
+        P.append((sc, full, True))
     if quick:
-        for base in big:
-            for r in ("ok", "ref", "inl"):
-                P.append((base + "/" + r, ["--mode", "dfs", "--pb", "2", "--max", "400000"] + named, False))
+        # spurious weak-CAS failure, preemption-bounded
+        P.append(("man/S2J1W1/ok", ["--mode", "dfs", "--pb", "2", "--weak", "1", "--max", "2000000"] + named, False))
+        for sc in ("man/S2J1W2/ok", "man/S2J1W2/ref", "man/S2J1W2/inl", "man/S2J2W1/ok", "man/S2J2W1/ref",
+                   "man/S2J2W2/ref", "ss/S2J1W1/ref"):
+            P.append((sc, ["--mode", "dfs", "--pb", "2", "--max", "300000"] + named, False))
     else:
-        for base in big:
-            for r in ("ok", "ref", "inl"):
-                P.append((base + "/" + r, ["--mode", "dfs", "--pb", "3", "--max", "6000000"] + named, False))
+        # spurious weak-CAS failure explored exhaustively (switches at the jobs word and inside jobs)
+        P.append(("man/S2J1W1/ok", full + ["--weak", "1"] + named, True))
+        P.append(("man/S2J1W1/ref", full + ["--weak", "1"] + named, True))
         for r in ("ok", "ref", "inl"):
-            P.append(("man/S2J1W2/" + r, ["--mode", "dfs", "--max", "400000000"] + named, True))
-        P.append(("man/S2J2W1/ok", ["--mode", "dfs", "--max", "400000000"] + named, True))
-    # seeded random walks
-    nrand = 3000 if quick else 40000
+            P.append(("man/S2J1W2/" + r, ["--mode", "dfs", "--pb", "3", "--max", "8000000"] + named, False))
+            P.append(("man/S2J2W1/" + r, ["--mode", "dfs", "--pb", "4", "--max", "8000000"] + named, False))
+            P.append(("man/S2J2W2/" + r, ["--mode", "dfs", "--pb", "2", "--max", "8000000"] + named, False))
+        for sc in ("ss/S2J1W1/ok", "ss/S2J1W1/ref", "re/S2J1W1/ref", "re/S1J1W2/ref"):
+            P.append((sc, ["--mode", "dfs", "--pb", "2", "--max", "4000000"] + named, False))
+    # seeded random walks (switch at every wrapped operation, one spurious weak-CAS failure allowed)
+    nrand = 250 if quick else 2500
     rnd = ["man/S3J3W2/ok", "man/S3J3W2/ref", "man/S3J3W2/inl", "man/S3J2W1/ref", "man/S2J3W2/ref",
            "re/S2J1W2/ok", "re/S2J1W2/ref", "ss/S2J1W1/ok", "ss/S2J2W2/ok", "ss/S2J2W2/ref", "ss/S2J1W2/ref"]
     for w in (1, 2):
@@ -240,7 +292,6 @@ def main(ck):
         "checks/c07.py trace-to-event mapping (syntactic) and harness/h_c07.cpp oracle + instrumented executors",
         "YACLIB_VERIF hooks in the fault layer; FIBER scheduler and fiber atomics (C17-C19 are about those)",
     ]
-    ck.prove("props/Properties_C07.v", ["model/StrandObs.vo"])
     exe0, b = vlib.compile_harness("F", [HARNESS], "c07")
     # private copy: the shared build cache prunes old trees while other checks run
     priv = "/var/tmp/c07.run.%d" % os.getpid()
@@ -270,6 +321,8 @@ def explore_and_compare(ck, exe):
     with concurrent.futures.ThreadPoolExecutor(max_workers=max(2, vlib.NPROC - 2)) as ex:
         futs = [(sc, args, exh, ex.submit(explore, exe, ["--exact", sc] + args, 1500 if ck.tier == "thorough" else 170))
                 for sc, args, exh in P]
+        # the proof stage runs while the harness explores
+        ck.prove("props/Properties_C07.v", ["model/StrandObs.vo", "model/StrandStack.vo"])
         for sc, args, exh, f in futs:
             results.append((sc, args, exh, f.result()))
     heads, traces = [], []
@@ -361,6 +414,37 @@ def explore_and_compare(ck, exe):
             validated += 1
             if contended(t["trace"], lvl):
                 nontriv.add("%s|%d|%s" % (t["scenario"], lvl, t["trace"]))
+    # ---- strand over strand: the same traces as one run of the two-level model StrandStack.v
+    terms2, metas2, seen2 = [], [], set()
+    for t in traces:
+        if t["fail"] or not t["scenario"].startswith("ss/"):
+            continue
+        try:
+            evs2, n0, n1, nc, nd, npx = to_events2(t["trace"])
+        except ValueError as e:
+            ck.gen_obligation("correspondence StrandStack (trace vocabulary)", False, "%s in %s" % (e, t["trace"]))
+            continue
+        term = "obs2_nat %d %d [%s]" % (n0, n1, "; ".join(evs2))
+        if term in seen2:
+            continue
+        seen2.add(term)
+        terms2.append(term)
+        metas2.append((t, nc, nd, npx))
+    header2 = ("From Coq Require Import List. Import ListNotations.\n"
+               "From YV Require Import model.Strand model.StrandStack.\n")
+    res2, logs2 = vlib.coq_eval_cases(header2, terms2, "c07s", shard=250) if terms2 else ([], [])
+    validated2 = 0
+    for (t, nc, nd, npx), r in zip(metas2, res2):
+        if r is None:
+            bad.append((t, 2, "two-level model evaluation failed"))
+        elif r[0] == 0:
+            bad.append((t, 2, "two-level model rejects event #%d" % r[1]))
+        elif r[1:4] != [1, 1, 0] or r[4] != npx or r[5] != nc or r[6] != nd:
+            bad.append((t, 2, "two-level model ends with quiescent2=%d outer-quiescent=%d proxies-pending=%d proxies=%d "
+                              "calls=%d drops=%d; implementation showed proxies=%d calls=%d drops=%d" % (tuple(r[1:7]) + (npx, nc, nd))))
+        else:
+            validated2 += 1
+    ck.cov["two_level_replays_validated"] = validated2
     ck.cov["traces_validated_against_impl"] = validated
     ck.cov["distinct_traces"] = len(traces)
     ck.cov["distinct_model_replays"] = len(terms)
@@ -381,7 +465,7 @@ def explore_and_compare(ck, exe):
                                    [x for x in traces if x["scenario"].startswith("ss/")][:1] +
                                    [x for x in traces if x["scenario"].startswith("pool/") and "hard" in x["scenario"]][:1])]
     for t, lvl, why in bad[:10]:
-        ck.broken.append(dict(name="correspondence Strand.run vs implementation on %s (level %d)" % (t["scenario"], lvl),
+        ck.broken.append(dict(name="correspondence %s vs implementation on %s (level %d)" % ("Strand.run" if lvl < 2 else "StrandStack.run2", t["scenario"], lvl),
                               detail="%s\ntrace: %s\nchoices: %s\nargs: %s" % (why, t["trace"], t["choices"], " ".join(t["args"]))))
     if not traces:
         ck.broken.append(dict(name="correspondence Strand.run vs implementation", detail="harness produced no traces"))
